@@ -206,3 +206,20 @@ def register(add):
         "detected through handler-exception log records.",
         "DESIGN.md 3/C17",
     )
+    add(
+        "C09",
+        "fault_enumeration",
+        "wire-trace specification monitor at a framing-strict simulated NCP (independent header decode) over the full real stack in virtual time; NCP versions 4..14,15,16,32 x path modes x all single and pair faults on the first 12 frames",
+        "Real EZSP -> real uart.connect -> Gateway -> AshProtocol -> fake serial -> faulty FIFO line -> "
+        "independent NCP ASH endpoint -> frame-level NCP that ignores frames not framed for its version.  "
+        "connect, startup_reset, write_config, reset, version, write_config are run for every NCP version "
+        "(incl. newer-than-known), serial and socket:// paths (NCP boot RSTACK absent / seen / late), fault-free "
+        "and with every single and pair of {drop, corrupt, duplicate} faults on the first 12 frames.  Oracle: RST "
+        "is CANCEL-prefixed and precedes DATA; after every NCP reset the first EZSP frame is the legacy version "
+        "query, then version(V) in V's layout, then only V's layout; ezsp_version == V with V's (or the newest) "
+        "tables; write_config completes; with faults on DATA/ACK only everything completes; with a fault on "
+        "RST/RSTACK a failure must be clean and a second connect must succeed.",
+        "Trusted: RefNcpAsh conformance; header layouts of rtmon/ezspref.py; newer NCPs assumed to use the v8+ "
+        "layout and the newest tables; command bodies via the repository's schema tables.",
+        "DESIGN.md 3/C09",
+    )
